@@ -44,12 +44,19 @@ def chordReHandler : Handler := fun fn args =>
       some (.ok (.bool (Rx.fullMatch r s.toList)))
   | _, _ => none
 
-def handlers : List Handler := [chordReHandler, Scores.handler, Matching.handler, HitMetric.handler, Chord.handler, Multipitch.handler, Beat.handler, Melody.handler, Intervals.handler, Pattern.handler, Onset.handler, Boundary.handler, Tempo.handler, Alignment.handler, IO.handler, Mir.Gen.IOLoad.handler, Transcription.handler, Hierarchy.handler, Separation.handler, SeparationLS.handler, EvalProg.handler Gen.evalPrograms Gen.sigs EvalSpec.specs, Validate.handler, Segment.handler, ChordCompare.handler, ChordEval.handler, Key.handler, Effects.handlerFor MirGen.Effects.prog MirGen.Effects.names MirGen.Effects.table, Mir.Gen.Scalars.handler]
-def handlers : List Handler := [chordReHandler, Scores.handler, Matching.handler, HitMetric.handler, Chord.handler, Multipitch.handler, Beat.handler, Melody.handler, Intervals.handler, Pattern.handler, Onset.handler, Boundary.handler, Tempo.handler, Alignment.handler, IO.handler, Transcription.handler, Hierarchy.handler, Separation.handler, SeparationLS.handler, EvalProg.handler Gen.evalPrograms Gen.sigs EvalSpec.specs, Validate.handler, Segment.handler, ChordCompare.handler, ChordEval.handler, Key.handler, Effects.handlerFor MirGen.Effects.prog MirGen.Effects.names MirGen.Effects.table, Mir.Gen.Scalars.handler, Mir.Gen.SegIndex.handler]
+/-- handlers of the REGENERATED definitions (`gen.*` ops), one per line (several branches append here); they are asked
+    first: a request that falls through the whole hand-model list costs ~15 ms -/
+def genHandlers : List Handler := [
+  Mir.Gen.Scalars.handler,
+  Mir.Gen.IOLoad.handler,
+  Mir.Gen.ChordFns.handler,
+  Mir.Gen.SegIndex.handler
+]
+
+def handlers : List Handler := [chordReHandler, Scores.handler, Matching.handler, HitMetric.handler, Chord.handler, Multipitch.handler, Beat.handler, Melody.handler, Intervals.handler, Pattern.handler, Onset.handler, Boundary.handler, Tempo.handler, Alignment.handler, IO.handler, Transcription.handler, Hierarchy.handler, Separation.handler, SeparationLS.handler, EvalProg.handler Gen.evalPrograms Gen.sigs EvalSpec.specs, Validate.handler, Segment.handler, ChordCompare.handler, ChordEval.handler, Key.handler, Effects.handlerFor MirGen.Effects.prog MirGen.Effects.names MirGen.Effects.table]
 
 def dispatch (fn : String) (args : List Val) : Option (Py Val) :=
-  -- `gen.chordfn` (MirGen/ChordFns.lean) is asked first: falling through the whole list costs ~15 ms per request
-  (Mir.Gen.ChordFns.handler :: handlers).firstM fun h => h fn args
+  (genHandlers ++ handlers).firstM fun h => h fn args
 
 def processLine (line : String) : String :=
   let toks := (line.trimAscii.toString.splitOn " ").filter (· ≠ "")
